@@ -237,6 +237,21 @@ fn families(thorough: bool) -> Vec<(String, String)> {
             v.push((format!("data at the end of memory: {} after {} bytes", def, pad), text));
         }
     }
+    // multi-byte characters at EVERY byte offset of a line that a message quotes: runs of 2-, 3- and 4-byte
+    // characters shifted by 0..4 ASCII characters, in three sizes (any cut of the quoted text at a fixed byte
+    // count below 400 / 6 000 / 80 000 bytes falls inside a character for one of the shifts)
+    for unit in ["\u{e9}", "\u{20ac}", "\u{1F600}"] {
+        for pad in 0..5usize {
+            for n in [200usize, 3000, 40_000] {
+                let run = format!("{}{}", "a".repeat(pad), unit.repeat(n / unit.len().max(1) * 2));
+                v.push((format!("syntax error after {} bytes of {:?} shifted by {}", run.len(), unit, pad), format!("start:\nmov ax, {} @\n", run)));
+                v.push((format!("error after a string of {} bytes of {:?} shifted by {}", run.len(), unit, pad), format!("s: db \"{}\" @\nstart:\nhlt\n", run)));
+                if n == 200 {
+                    v.push((format!("run-time messages on lines with {} bytes of {:?} shifted by {}", run.len(), unit, pad), format!("start: ; {}\nmov bl, 0 ; {}\nint 3 ; {}\nprint reg ; {}\ndiv bl ; {}\n", run, run, run, run, run)));
+                }
+            }
+        }
+    }
     // names of half a megabyte and a megabyte in every place a name can stand
     for n in [400_000usize, 1_000_000] {
         let nm = "a".repeat(n);
